@@ -3,6 +3,8 @@
 package boltz
 
 import (
+	"errors"
+
 	"go.etcd.io/bbolt"
 
 	"github.com/openziti/storage/ast"
@@ -94,13 +96,36 @@ func verifC14Store(kind int) {
 	defer env.close()
 	symR := kind == 0 || kind == 4 || kind == 5 || kind == 7 || kind == 8
 	symRole2 := kind == 1 || kind == 4 || kind == 5 || kind == 7 || kind == 8
-	symLink := kind == 2 || kind == 3 || kind == 9 || kind == 10
+	symLink := kind == 2 || kind == 3 || kind == 9 || kind == 10 || kind == 11
 	if kind == 7 || kind == 8 {
 		n = 1
 	}
 	// the key cursor sees each role value once however many hold it: "r" is held
 	// by the first emp only, the second values are arbitrary
 	p := verifC14Populate(env, n, symR, symRole2, symLink, kind == 1)
+	if kind == 11 {
+		// the same membership as "has child data": the flagged emps become managers
+		env.kidStore = verifNewMgrStore(env.emp, false)
+		err := env.update(func(ctx MutateContext) error {
+			for i, id := range p.ids {
+				if !p.linkedX[i] {
+					continue
+				}
+				e, found, err := env.emp.FindById(ctx.Tx(), string(id))
+				if err != nil || !found {
+					return errors.New("verif: emp not found")
+				}
+				if err := env.emp.DeleteById(ctx, string(id)); err != nil {
+					return err
+				}
+				if err := env.kidStore.Create(ctx, &vMgr{vEmp: *e, Lead: true}); err != nil {
+					return err
+				}
+			}
+			return nil
+		})
+		verifrt.Assert(err == nil, "C14 child data setup succeeds")
+	}
 	if kind == 10 {
 		// the same membership as ref-counted links (count 1 or 2)
 		err := env.update(func(ctx MutateContext) error {
@@ -203,6 +228,10 @@ func verifC14Store(kind int) {
 			}
 			c := lb.IterateStringListInDirection(forward)
 			verifrt.CursorScript(want, c, forward, steps, 1, "C14 typed bucket string-list cursor")
+		case 11: // valid-ids cursor of a (non-extended) child store: only the ids that have child data
+			want := p.idsWhere(func(i int) bool { return p.linkedX[i] })
+			c := env.kidStore.IterateValidIds(tx, ast.BoolNodeTrue)
+			verifrt.CursorScript(want, c, true, steps, 2, "C14 child store valid-ids cursor")
 		case 10: // ref-counted link collection cursor from the dept side
 			want := p.idsWhere(func(i int) bool { return p.linkedX[i] })
 			c := env.dept.rcMembers.IterateLinks(tx, []byte("x"), forward)
@@ -245,14 +274,15 @@ func verifC14Store(kind int) {
 	})
 }
 
-func VerifC14_SetIndexValueCursor()     { verifC14Store(0) }
-func VerifC14_SetIndexKeyCursor()       { verifC14Store(1) }
-func VerifC14_LinkCollectionCursor()    { verifC14Store(2) }
-func VerifC14_RelatedEntitiesCursor()   { verifC14Store(3) }
-func VerifC14_MatchingAllOfCursor()     { verifC14Store(4) }
-func VerifC14_MatchingAnyOfCursor()     { verifC14Store(5) }
-func VerifC14_IdIterationCursor()       { verifC14Store(6) }
-func VerifC14_StringListCursor()        { verifC14Store(7) }
-func VerifC14_SetSymbolRuntimeCursor()  { verifC14Store(8) }
-func VerifC14_SetSymbolReopenedCursor() { verifC14Store(9) }
-func VerifC14_RefCountedLinkCursor()    { verifC14Store(10) }
+func VerifC14_SetIndexValueCursor()      { verifC14Store(0) }
+func VerifC14_SetIndexKeyCursor()        { verifC14Store(1) }
+func VerifC14_LinkCollectionCursor()     { verifC14Store(2) }
+func VerifC14_RelatedEntitiesCursor()    { verifC14Store(3) }
+func VerifC14_MatchingAllOfCursor()      { verifC14Store(4) }
+func VerifC14_MatchingAnyOfCursor()      { verifC14Store(5) }
+func VerifC14_IdIterationCursor()        { verifC14Store(6) }
+func VerifC14_StringListCursor()         { verifC14Store(7) }
+func VerifC14_SetSymbolRuntimeCursor()   { verifC14Store(8) }
+func VerifC14_SetSymbolReopenedCursor()  { verifC14Store(9) }
+func VerifC14_RefCountedLinkCursor()     { verifC14Store(10) }
+func VerifC14_ChildStoreValidIdsCursor() { verifC14Store(11) }
